@@ -139,6 +139,12 @@ def run(ctx):
                   "a write API call queues at most one command and returns that command's send result (%d paths)" % len(paths),
                   f.where(), "; ".join("%s via %s" % x for x in bad[:3]))
     ctx.floor("R11.4", "public write APIs returning a send result", n_api, 6)
+    # ---- R11.8 (= C12 R12.3) an acknowledgement that completed is delivered to whoever awaits it *now*: completion order is
+    # observed through the futures, and a handle that keeps the first waker it saw never wakes a later awaiter - the
+    # earlier write then never completes for its awaiter while later ones do
+    for o in ctx.own_of("c12"):
+        if o["rule"] == "R12.3" and any(x in o["key"] for x in ("registers-current-waker", "registration-dominates-flag-load", "wake-after-flag")):
+            ctx._add(o["status"], "R11.8", o["key"], o["desc"], o["where"], o["detail"])
 
 
 def find_worker(ctx, A):
